@@ -499,9 +499,17 @@ where
 {
     fn textual_order(&mut self) -> Vec<ResultTextSelection<'store>> {
         let mut v: Vec<_> = self.collect();
+        //(per resource, then in textual order: the order of offsets alone would leave equal
+        // selections of one resource apart when another resource has the same offsets, and
+        // dedup() only removes neighbours)
         v.sort_unstable_by(|a, b| {
-            a.partial_cmp(b)
-                .expect("PartialOrd must work for ResultTextSelection")
+            a.resource()
+                .handle()
+                .cmp(&b.resource().handle())
+                .then_with(|| {
+                    a.partial_cmp(b)
+                        .expect("PartialOrd must work for ResultTextSelection")
+                })
         });
         v.dedup();
         v
@@ -682,7 +690,13 @@ where
         for textselection in self {
             textselections.extend(textselection.related_text(operator))
         }
-        textselections.sort_unstable_by(|a, b| a.partial_cmp(b).unwrap());
+        //(per resource, then in textual order: equal selections end up next to each other for dedup())
+        textselections.sort_unstable_by(|a, b| {
+            a.resource()
+                .handle()
+                .cmp(&b.resource().handle())
+                .then_with(|| a.partial_cmp(b).unwrap())
+        });
         textselections.dedup();
         textselections.into_iter()
     }
